@@ -210,6 +210,26 @@ func init() {
 		Gen:  func(t *rapid.T) *Case { return GenCase(t, p34) },
 		Rule: "2-5 clients doing short transactions with dense schedule points in readTs/newCommitTs/doneCommit and in both WaterMark.process goroutines; invariants: (i) when NewTransaction returns readTs no commit <= readTs is still in flight and every acknowledged commit is <= readTs, (ii) at every watermark advance d0->d1 no index in (d0,d1] has Begin without Done, (iii) every waiter is released (deadlock detector + step budget). non-trivial = run in which a transaction began while another commit was in flight",
 	})
+	// C09 torn tails of WAL / value log / MANIFEST
+	p9 := profT("R-C09")
+	p9.MinClients, p9.MaxClients, p9.MaxOps = 1, 2, 8
+	p9.WIter, p9.WGet = 0, 1
+	p9.WSet, p9.WDel = 8, 3
+	p9.Groups = [][]string{nil}
+	p9.MaxDec = 40
+	p9.Encrypt = true
+	register(&Scenario{Prop: "C09", Family: "R", Level: "fault_enumeration", Profile: p9,
+		Gen: func(t *rapid.T) *Case {
+			c := GenCase(t, p9)
+			c.Faults.CrashEvery = 1000000 // only torn variants (plus their basis image)
+			c.Faults.Torn = true
+			c.Faults.TornEvery = rapid.SampledFrom([]int{1, 2, 3, 5}).Draw(t, "torn_every")
+			return c
+		},
+		Run:  func(t *testing.T, c *Case, keep bool) Outcome { return ExecuteCrash(t, c, p9, keep) },
+		Rule: "short histories (tiny memtables, values across the value threshold so that both WAL and value log are appended, flushes so that the MANIFEST is appended, encrypted or not); right after every k-th append (WAL entry, value-log entry, MANIFEST change set) the directory is imaged and the record just written is cut at every byte (records <=48 B) or at the first/last 20 bytes + 12 sampled interior offsets, each cut once with the remainder zero-filled and once with the file ending at the cut; every such image is re-opened with the real code: Open must succeed, the state must be a commit prefix containing every acknowledged commit, and no value that was never written may be returned. evaluations = histories; torn images verified are in probes",
+		Assume: []string{"a torn append is modelled at byte granularity on the record reported by the vhook.IO line next to the memcpy/write"},
+	})
 	// C10 SyncWrites vs power loss
 	p10 := profT("R-C10")
 	p10.MinClients, p10.MaxClients, p10.MaxOps = 1, 3, 12
